@@ -57,13 +57,13 @@ def main(argv=None):
             chk.violations = hit
             print("replay of %s: %s" % (want, "still violated" if hit else
                                         "no longer violated"))
-        rc = chk.finish()
-        if args.tier == "thorough":
+        if args.tier == "thorough" and not args.replay:
+            from .selftest.runner import run_selftest
             try:
-                from .selftest.runner import run_selftest
                 run_selftest(pid, chk, seed)
-            except ImportError:
-                pass
+            except Exception as e:      # the self-test never decides the verdict
+                chk.note("self-test did not complete: %r" % (e,))
+        rc = chk.finish()
         return rc
     except AnalysisError as e:
         print("ANALYSIS-ERROR property=%s anchor=%s %s" % (pid, e.anchor, e.detail))
